@@ -309,6 +309,10 @@ func ContinueReadBodyStream(req *protocol.Request, zr network.Reader, maxBodySiz
 	return nil
 }
 
+// maxPeekBodySize is the largest announced body length that ContinueReadBody
+// peeks in one piece (the default request body limit).
+const maxPeekBodySize = 4 * 1024 * 1024
+
 func ContinueReadBody(req *protocol.Request, r network.Reader, maxBodySize int, preParseMultipartForm ...bool) error {
 	var err error
 	contentLength := req.Header.ContentLength()
@@ -333,13 +337,19 @@ func ContinueReadBody(req *protocol.Request, r network.Reader, maxBodySize int, 
 
 		// This optimization is just suitable for ping-pong case and the ext.ReadBody is
 		// a common function, so we just handle this situation before ext.ReadBody
-		buf, err := r.Peek(contentLength)
-		if err != nil {
-			return err
+		//
+		// Peek reserves the whole length before a single body byte has arrived: with
+		// the body limit switched off a length that is not buffered yet and larger
+		// than maxPeekBodySize is read by ext.ReadBody, which grows with the data.
+		if contentLength <= maxPeekBodySize || contentLength <= r.Len() {
+			buf, err := r.Peek(contentLength)
+			if err != nil {
+				return err
+			}
+			r.Skip(contentLength) // nolint: errcheck
+			req.SetBodyRaw(buf)
+			return nil
 		}
-		r.Skip(contentLength) // nolint: errcheck
-		req.SetBodyRaw(buf)
-		return nil
 	}
 
 	if contentLength == -2 {
